@@ -102,6 +102,9 @@ chk("C18", "exploration",
     "Trusted: vinstr's Step insertion, JSON rendering for result comparison, the Go race detector. Real code: all parsers of version, dependency, control, changelog (instrumented copy for the simulation, unmodified tree for the race part).",
     "DESIGN.md §5 C18")
 
+COMMON = ("; every choice (workload, delivery, schedule, faults, knobs, concrete argument types, garbage-collection points) comes from one seeded tape; "
+          "a violation is minimised and replayed in fresh processes, as a single run or - when it needs state left behind by earlier calls - as a recorded sequence of runs in one process")
+
 def main():
     props = [json.loads(l) for l in open(os.path.join(HERE, "properties.jsonl"))]
     ids = [p["id"] for p in props]
@@ -118,7 +121,7 @@ def main():
             "engine": "vsim",
             "level_claimed": {"category": c["level"], "text": c["text"], "design_ref": c["design"]},
             "level_note": c["note"],
-            "technique": c["technique"],
+            "technique": c["technique"] + COMMON,
         })
     na = []
     for id in ids:
@@ -130,7 +133,7 @@ def main():
         "setup_cmd": "./check setup",
         "hooks": {
             "guard": "verif (unused: no hook is committed to /repo)",
-            "enable": "none needed: each check copies /repo's working tree to a scratch directory and instruments the copy at run time (vinstr: os->simos import swap, seeded map-range order, loop-head step counters); variant N checks build against /repo directly",
+            "enable": "none needed: each check copies /repo's working tree to a scratch directory and instruments the copy at run time (vinstr: os / io/ioutil / path/filepath imports routed to the simulated file system, seeded map-range order, step counters at function entries and loop heads, sync.Mutex/RWMutex Lock and sync.Once.Do rewritten to forms that yield to the scheduler); variant N checks build against /repo directly",
             "baseline_off_cmd": "cd /repo && GOFLAGS=-mod=mod GOPROXY=off GOSUMDB=off GOTOOLCHAIN=local go test -vet=off -count=1 ./...",
             "source_commits": [],
             "add_only": True,
